@@ -25,8 +25,16 @@ def _cellval(ctx, vkind, name):
     raise ValueError(vkind)
 
 
-def assign_nd(ctx, shape, lkinds, kinds, rhs='scalar', via='setitem', inplace=True, cast=False, dkind='f', vkind='f', position=False, order=None, layout=None, prime=False):
-    a, ref, dims, labels = build(ctx, shape, lkinds, dkind, order=order, layout=layout, prime=prime)
+def assign_nd(ctx, shape, lkinds, kinds, rhs='scalar', via='setitem', inplace=True, cast=False, dkind='f', vkind='f', position=False, order=None, layout=None, prime=False, frozen=False):
+    if frozen:
+        # the array is created while indexing.by = 'position' is in force (that mode stays with the array), the option is then reset:
+        # default-mode calls on it mean positions, for in-place and for copy-returning assignments alike
+        ctx.da.set_option('indexing.by', 'position')
+    try:
+        a, ref, dims, labels = build(ctx, shape, lkinds, dkind, order=order, layout=layout, prime=prime)
+    finally:
+        if frozen:
+            ctx.da.set_option('indexing.by', 'label')
     attrs = {'units': 'm', 'hist': [1, 2]}
     a.attrs.update(attrs)
     idx = []
@@ -92,7 +100,7 @@ def assign_nd(ctx, shape, lkinds, kinds, rhs='scalar', via='setitem', inplace=Tr
     holder = {}
     if via == 'setitem':
         def f():
-            if position:
+            if position and not frozen:
                 a.ix[key] = value
             else:
                 a[key] = value
@@ -124,7 +132,7 @@ def assign_nd(ctx, shape, lkinds, kinds, rhs='scalar', via='setitem', inplace=Tr
         axarg = {'put-axis-name': dims[j], 'put-axis-pos': j, 'put-axis-neg': j - len(dims)}[via]
         f = lambda: a.put(i1, value, axis=axarg, inplace=inplace, indexing='position' if position else None, **kw)
     else:
-        f = lambda: a.put(key, value, inplace=inplace, indexing='position' if position else None, **kw)
+        f = lambda: a.put(key, value, inplace=inplace, indexing='position' if (position and not frozen) else None, **kw)
     r = ctx.call(f)
     if absent:
         ok = ctx.AND(r == ('exc', 'IndexError'), same(ctx, a, ref, attrs=attrs))
@@ -156,7 +164,7 @@ def assign_nd(ctx, shape, lkinds, kinds, rhs='scalar', via='setitem', inplace=Tr
     if via in ('putdict', 'putdict-intkeys', 'setitem-dict'):
         rb = ctx.call(lambda: res.take(d_, indexing='position' if position else 'label'))
     else:
-        rb = ctx.call(lambda: (res.ix[key] if position else res[key]))
+        rb = ctx.call(lambda: (res.ix[key] if (position and not frozen) else res[key]))
     if rb[0] != 'ok':
         oks.append(False)
     else:
@@ -272,6 +280,34 @@ def assign_tol(ctx, n, form, via, lkind='f', inplace=True):
     if not inplace:
         oks.append(same(ctx, a, ref))
     return ctx.done(ctx.AND(*oks), [ctx.observe(res)], inplace=True)
+
+
+def mixed_list_rhs(ctx, via, inplace):
+    """an object array assigned a plain Python list mixing a number and a string: reading back returns the very items"""
+    labels = ctx.labels('U', 3, 'l')
+    cells = [ctx.real('v0'), ctx.rank('v1'), ctx.int('v2')]
+    a = ctx.mk(['x'], [labels], cells, lkinds=['U'], kind='O')
+    num = ctx.int('n')
+    txt = ctx.rank('t')
+    rhs = [num, txt]
+    idx = [labels[0], labels[2]]
+    if via == 'setitem':
+        def f():
+            a[idx] = rhs
+            return a
+        inplace = True
+    else:
+        f = lambda: a.put(idx, rhs, inplace=inplace)
+    r = ctx.call(f)
+    if r[0] != 'ok':
+        return ctx.done(False, r[1])
+    res = a if inplace else r[1]
+    exp = [num, cells[1], txt]
+    got = res.values.tolist()
+    oks = [len(got) == 3, ctx.eq(got[0], num), ctx.eq(got[1], cells[1]), ctx.eq(got[2], txt), type(got[0]) is not str if not ctx.sym else True]
+    if not inplace:
+        oks.append(same(ctx, a, Ref(['x'], [labels], cells)))
+    return ctx.done(ctx.AND(*oks), ctx.observe(res), inplace=True)
 
 
 def cast_pairs(ctx, akind, vkind, cast, via, inplace=True, rhs='scalar'):
@@ -501,6 +537,14 @@ def templates():
                 add('tol-%s-%s-n%d' % (via, form, n), 'assign_tol', 'quick' if n == 2 or form == 'scalar' else 'thorough', cost=3 if form == 'scalar' else 12, n=n, form=form, via=via)
     add('tol-int-axis', 'assign_tol', cost=3, n=2, form='scalar', via='put-tol', lkind='i')
     add('tol-notinplace', 'assign_tol', cost=3, n=2, form='scalar', via='put-tol', inplace=False)
+    # arrays created under indexing.by = 'position' (the mode stays with the array after the option is reset)
+    for kinds in (('scalar',), ('list2',), ('slice',)):
+        for via, inplace in (('setitem', True), ('put', True), ('put', False)):
+            add('frozen-position-1d-%s-%s-%s' % (kinds[0], via, inplace), 'assign_nd', cost=2, shape=[3], lkinds=['i'], kinds=list(kinds), rhs='scalar', position=True, frozen=True, via=via, inplace=inplace)
+    add('frozen-position-2d', 'assign_nd', cost=3, shape=[3, 2], lkinds=['i', 'i'], kinds=['scalar', 'list2'], rhs='array', position=True, frozen=True, via='put', inplace=False)
+    # right-hand sides given as plain Python lists that mix strings and numbers (object arrays keep each item's own type)
+    for via, inplace in (('setitem', True), ('put', False)):
+        add('mixed-list-rhs-%s' % via, 'mixed_list_rhs', cost=1, via=via, inplace=inplace)
     # positional
     for kinds in (('scalar',), ('list2',), ('mask',), ('slice',)):
         add('pos-1d-%s' % kinds[0], 'assign_nd', cost=2, shape=[3], lkinds=['U'], kinds=list(kinds), rhs='scalar', position=True)
